@@ -12,6 +12,8 @@ DEST=$(grep -m1 -oE "(x|app|adapter)/[a-zA-Z0-9_/.-]+_test\.go" $DEMO | head -1)
 PKG=./$(dirname $DEST)/
 RUN="-run Seeded|Suite -testify.m Seeded"
 cp $DEMO $WT/$DEST
+# packages without a testify suite do not know -testify.m
+if go test -vet=off -count=1 $PKG $RUN 2>&1 | grep -q "flag provided but not defined"; then RUN="-run Seeded"; fi
 go test -vet=off -count=1 $PKG $RUN > /var/tmp/confirm-$ID-without.log 2>&1; W=$?
 git apply $SD/patch.diff || { echo "[$ID] patch does not apply"; exit 2; }
 go test -vet=off -count=1 $PKG $RUN > /var/tmp/confirm-$ID-with.log 2>&1; X=$?
